@@ -22,6 +22,7 @@ from geneticengine.algorithms.gp.gp import GeneticProgramming, default_generic_p
 from geneticengine.algorithms.gp.operators.combinators import ExclusiveParallelStep, IdentityStep, ParallelStep
 from geneticengine.algorithms.gp.operators.evaluation import EvaluateStep
 from geneticengine.algorithms.gp.operators.initializers import HalfAndHalfInitializer, StandardInitializer
+from geneticengine.algorithms.gp.population import Population
 from geneticengine.algorithms.gp.structure import PopulationInitializer
 from geneticengine.evaluation.budget import SearchBudget
 from geneticengine.evaluation.recorder import SearchRecorder
@@ -370,6 +371,41 @@ def init_site(ini):
             "half": "HalfAndHalfInitializer"}[k] + ".initialize"
 
 
+def deep_program(start, depth):
+    """a program of the steps_common tree grammar with `depth` nested grammar nodes"""
+    below = depth - {sc.Root: 0, sc.Top: 1, sc.Top3: 2}[start]
+    t = sc.Leaf(1)
+    for j in range(max(0, below - 1)):
+        t = sc.Node(t, sc.Leaf(j)) if j % 2 == 0 else sc.Node(sc.Leaf(j), t)
+    if start is sc.Top:
+        return sc.Top(t)
+    if start is sc.Top3:
+        return sc.Top3(sc.Top(t))
+    return t
+
+
+def check_population_sizes(h: Harness):
+    """a Population holds exactly the individuals it was built from, for every size -- also well beyond any internal batch size"""
+    rep = StubRep(1)
+    problem = sc.make_problem([False])
+    for n in [0, 1, 2, 63, 64, 65, 127, 128, 129, 255, 256, 257, 300, 383, 384, 385, 511, 512, 513, 777, 1024, 1025]:
+        for ev in ("sequential",):
+            inds = [Individual((i, i % 7, (i % 5,)), rep) for i in range(n)]
+            tracker = MultiObjectiveProgressTracker(problem, SequentialEvaluator())
+            try:
+                got = list(Population(iter(inds), tracker, 0))
+            except Exception as e:  # noqa: BLE001
+                h.fail("Population.__init__", "raises", f"Population of {n} individuals: {type(e).__name__}: {e}", {"n": n})
+                continue
+            h.count("population-sizes")
+            h.seen(f"population:{n}", nontrivial=n >= 2)
+            h.holds("Population.__init__", "wrong-count", ["prop_count", n, len(got)],
+                    f"Population built from {n} individuals holds {len(got)}", {"n": n}, nontrivial=n >= 2)
+            if [id(x) for x in got] != [id(x) for x in inds] or any(not x.has_fitness(problem) for x in got):
+                h.fail("Population.__init__", "not-the-given-individuals", f"Population built from {n} individuals: other individuals, another "
+                       f"order, or unevaluated members", {"n": n})
+
+
 def check_initialisers(h: Harness):
     for setup, tag in ((sc.tree_setup(h.seed), ""), (sc.tree_setup_tight(h.seed), ":limit=minimum=2"), (sc.tree_setup_tight(h.seed, sc.Top3), ":limit=minimum=3")):
         check_initialisers_on(h, setup, tag)
@@ -390,6 +426,13 @@ def check_initialisers_on(h: Harness, setup, tag):
             if not isinstance(ini, str) and ini[0] == "inject" and ini[1] > k + 2:
                 continue
             programs = [rep.create_genotype(r) if i % 2 == 0 else Individual(rep.create_genotype(r), rep) for i in range(16)]
+            if k % 2 == 1:
+                # some of the user's programs are DEEPER than the representation's depth limit (they come from an earlier run with
+                # another limit, or were written by hand): they are injected like any other
+                for i in range(0, 16, 3):
+                    deep = deep_program(g.starting_symbol, rep.decider.max_depth + 1 + i % 2)
+                    programs[i] = deep if i % 2 == 0 else Individual(deep, rep)
+                h.count("init:injected-programs-deeper-than-the-limit")
             ids = {}
             for i, p in enumerate(programs):
                 ids[id(p)] = i
@@ -493,6 +536,10 @@ def check_gp_tree(h: Harness):
     configs = []
     for n in sizes:
         configs.append((None, n, "standard"))
+    # large populations (beyond any batch size an evaluator or Population might use internally)
+    for n, ini in ((257, "standard"), (300, "inject"), (513, "half")) if not h.thorough else ((257, "standard"), (300, "inject"), (513, "half"), (1025, "standard"), (383, "pigrow")):
+        configs.append((None, n, ini))
+        configs.append((("par", ["elitism", "novelty", ("seq", [("tournament", 2, False), ("mutation", 1001)])], [1, 1, 8]), n + 2, ini))
     for _ in range(h.n(8, 300)):
         step = sc.gen_step(rng, rng.choice([1, 2, 3]), None)
         if "lexicase" in sc.kinds(step):
@@ -500,7 +547,7 @@ def check_gp_tree(h: Harness):
         configs.append((step, rng.randint(2, 12), rng.choice(["standard", "half", "inject", "pigrow"])))
     for step, n, ini in configs:
         g, r, rep = sc.tree_setup(rng.randrange(1000))
-        gens = h.n(3, 8)
+        gens = h.n(3, 8) if n < 200 else 2
         problem = SingleObjectiveProblem(lambda p: float(sc.count_nodes(p)), minimize=rng.random() < 0.5)
         rec = sc.GenRecorder(limit=4 * (gens + 1) * n + 100)
         tracker = SingleObjectiveProgressTracker(problem, SequentialEvaluator(), recorders=[rec])
@@ -541,5 +588,6 @@ def run(h: Harness):
     check_single_steps(h)
     check_evaluate_step(h)
     check_initialisers(h)
+    check_population_sizes(h)
     check_gp_stub(h)
     check_gp_tree(h)
